@@ -13,7 +13,9 @@ is turned into a fault run:
     awaitable before_sleep hooks, sleeper awaits)
 
 R1 poll coverage: with abort_if configured there is a poll before the first
-   attempt and between any two consecutive actions (attempt / sleep)
+   attempt and between any two consecutive actions (attempt / sleep), and the
+   poll that guards a backoff comes after the retry decision (strategy / budget
+   / `retry` event) and before the sleep handler, before_sleep and the sleeper
 R2 after the first poll answering True, or AbortRetryError from the operation:
    no attempt, no sleep, no handler consultation; the call ends with
    AbortRetryError (call) / stop_reason ABORTED (execute)
@@ -58,12 +60,16 @@ def gen(seed, tier="quick"):
     if scn["entry"] in ("Policy", "Policy.context", "Policy.noretry") and r.random() < 0.5:
         scn["cfg"]["breaker"] = {"kind": "real", "failure_threshold": 3}
     if scn["mode"] == "async":
-        scn["place"]["bs_async"] = r.random() < 0.7
+        scn["place"]["bs_async"] = r.choice([False, True, True, "aw"])
         if r.random() < 0.4:
             for st in scn["calls"][0]["attempts"]:
                 st["parts"] = r.choice([1, 2, 3])
     for c in scn["calls"]:
         c["abort_at"] = None
+    if scn["entry"] != "Policy.noretry" and r.random() < 0.15:
+        # per-attempt timeout that never fires: sync = the real worker-thread path of
+        # _call_with_timeout (the operation returns at once in real time), async = asyncio.wait_for on the SimLoop
+        scn["cfg"]["attempt_timeout_us"] = 3_600_000_000
     return scn
 
 
@@ -75,10 +81,20 @@ def check_polls(scn, cf, out, ent, tag):
     if not (scn.get("hooks") or {}).get("abort_if"):
         return
     need = True  # a poll is required before the next action
+    decided = False  # a retry was decided (strategy consulted / token taken / `retry` announced) and not polled since
     for e in cf.events:
         if e["ev"] == "POLL":
             need = False
-        elif e["ev"] in ("OP_BEGIN", "SLEEP_BEGIN"):
+            decided = False
+        elif e["ev"] in ("STRATEGY", "BUDGET") or (e["ev"] in ("METRIC", "LOG") and e["event"] == "retry"):
+            decided = True
+        elif e["ev"] in ("HANDLER", "BEFORE_SLEEP", "SLEEP_BEGIN") and decided:
+            # "consulted before every backoff sleep": the consultation guarding a sleep comes after
+            # the decision to back off (the loop may have spent time computing it), as the
+            # repository's own test_policy_abort_if_skips_sleep pins for one path
+            out.append(V("R1", "no abort poll between the retry decision and the backoff", {"entry": ent, "event": e["ev"], "fault": tag}))
+            decided = False
+        if e["ev"] in ("OP_BEGIN", "SLEEP_BEGIN"):
             if need:
                 what = "attempt" if e["ev"] == "OP_BEGIN" else "sleep"
                 out.append(V("R1", f"no abort poll before {what}", {"entry": ent, "event": {k: e[k] for k in ("ev", "t") if k in e}, "k": e.get("k", e.get("j")), "fault": tag}))
